@@ -46,7 +46,7 @@ def cfg_strategy():
         return st.sampled_from(sorted(SUBK)).flatmap(lambda k: st.tuples(st.just(k), st.lists(st.sampled_from(subsets(SUBK[k]) + [SUBK[k]]), min_size=1, max_size=2)))
     return st.sampled_from(sorted(PRIM)).flatmap(lambda kid: st.fixed_dictionaries({
         'primary': st.just(kid), 'uids': st.lists(uid(kid), min_size=1, max_size=2),
-        'subs': st.lists(sub(), max_size=3, unique_by=lambda x: x[0]), 'unhashed': st.sampled_from([False, False, True])}))
+        'subs': st.lists(sub(), max_size=3, unique_by=lambda x: x[0]), 'unhashed': st.sampled_from([False, False, True]), 'wide': st.sampled_from([False, False, True])}))
 
 
 def build(cfg, secret, locked=False, with_uids=True, sub_pw=None):
@@ -68,7 +68,9 @@ def build(cfg, secret, locked=False, with_uids=True, sub_pw=None):
     if with_uids:
         for i, flags in enumerate(cfg['uids']):
             ub = ('User %d <u%d@example.org>' % (i, i)).encode()
-            extra = keypool.sp(27, bytes([flags | C])) + keypool.sp(11, bytes([9, 7])) + keypool.sp(21, bytes([8])) + keypool.sp(22, bytes([2, 0]))
+            # 'wide': a second flags octet (RFC 4880 5.2.3.21 "N octets of flags"; its bits mean other things, e.g. 0x04 restricted encryption,
+            # 0x08 timestamping in later specifications) -- it grants none of the first-octet capabilities
+            extra = keypool.sp(27, bytes([flags | C]) + (b'\x0e' if cfg.get('wide') else b'')) + keypool.sp(11, bytes([9, 7])) + keypool.sp(21, bytes([8])) + keypool.sp(22, bytes([2, 0]))
             body = rsig.sign(psec, 0x13, 8, ('cert', ppub, 'uid', ub), keypool.std_hashed(t0 + (len(cfg['uids']) - i), ppub.fingerprint, extra), keypool.sp(16, ppub.keyid) + unauth)
             out += wire.build_packet(13, ub) + wire.build_packet(2, body)
     for skid, hist in cfg['subs']:
@@ -80,7 +82,7 @@ def build(cfg, secret, locked=False, with_uids=True, sub_pw=None):
             if flags & S:
                 eb = rsig.sign(ssec, 0x19, 8, ('subkey', ppub, spub), keypool.std_hashed(t0 + j, spub.fingerprint), keypool.sp(16, spub.keyid))
                 unh += keypool.sp(32, eb)
-            body = rsig.sign(psec, 0x18, 8, ('subkey', ppub, spub), keypool.std_hashed(t0 + j, ppub.fingerprint, keypool.sp(27, bytes([flags]))), unh)
+            body = rsig.sign(psec, 0x18, 8, ('subkey', ppub, spub), keypool.std_hashed(t0 + j, ppub.fingerprint, keypool.sp(27, bytes([flags]) + (b'\x0e' if cfg.get('wide') else b''))), unh)
             out += wire.build_packet(2, body)
     return out
 
@@ -184,8 +186,8 @@ def evaluate(c, rec):
         user = None
     comps = components(cfg, user)
     case = dict(c, user=user)
-    key = (cfg['primary'], tuple(cfg['uids']), tuple((k, tuple(h)) for k, h in cfg['subs']), op, form, enforce, user, bool(cfg.get('unhashed')))
-    labels = ['op/' + op, 'form/' + form, 'enforce/%s' % enforce, 'nsubs/%d' % len(cfg['subs'])] + (['unauthenticated-flags-in-unhashed-area'] if cfg.get('unhashed') else [])
+    key = (cfg['primary'], tuple(cfg['uids']), tuple((k, tuple(h)) for k, h in cfg['subs']), op, form, enforce, user, bool(cfg.get('unhashed')), bool(cfg.get('wide')))
+    labels = ['op/' + op, 'form/' + form, 'enforce/%s' % enforce, 'nsubs/%d' % len(cfg['subs'])] + (['unauthenticated-flags-in-unhashed-area'] if cfg.get('unhashed') else []) + (['two-octet-key-flags'] if cfg.get('wide') else [])
     sample = {'primary': cfg['primary'], 'identity_flags': cfg['uids'], 'subkeys': cfg['subs'], 'op': op, 'form': form, 'enforcement': enforce, 'user': user}
 
     if op == 'decrypt':
@@ -317,6 +319,8 @@ FIXED = [
     {'primary': 'rsa1024-0', 'uids': [A], 'subs': [('ed25519-1', [A]), ('cv25519-0', [A & 0])]},
     {'primary': 'ed25519-0', 'uids': [0, A], 'subs': [('ed25519-1', [A]), ('cv25519-0', [0])], 'unhashed': True},
     {'primary': 'rsa1024-0', 'uids': [0], 'subs': [('rsa1024-1', [A])], 'unhashed': True},
+    {'primary': 'rsa1024-0', 'uids': [0], 'subs': [('rsa1024-1', [A]), ('cv25519-0', [0])], 'wide': True},
+    {'primary': 'ed25519-0', 'uids': [A], 'subs': [('ed25519-1', [0])], 'wide': True},
 ]
 
 
@@ -330,7 +334,7 @@ def w_random(arg):
     seed, idx, n, bsec = arg
     rec = harness.Rec()
     strat = st.fixed_dictionaries({'cfg': cfg_strategy(), 'pick': st.integers(0, 3)})
-    harness.run_given(strat, lambda c: sweep({'primary': c['cfg']['primary'], 'uids': list(c['cfg']['uids']), 'subs': [(k, list(h)) for k, h in c['cfg']['subs']], 'unhashed': c['cfg'].get('unhashed', False)}, rec, c['pick']),
+    harness.run_given(strat, lambda c: sweep({'primary': c['cfg']['primary'], 'uids': list(c['cfg']['uids']), 'subs': [(k, list(h)) for k, h in c['cfg']['subs']], 'unhashed': c['cfg'].get('unhashed', False), 'wide': c['cfg'].get('wide', False)}, rec, c['pick']),
                       harness.derive_seed('C16', seed, idx), n, harness.Budget(bsec), rec)
     return rec
 
@@ -467,6 +471,6 @@ def replay(case):
     if c.get('kind') == 'history':
         run_history(c, rec)
         return [(f['clause'], f['cause'], f['detail']) for f in rec.findings]
-    c['cfg'] = {'primary': c['cfg']['primary'], 'uids': list(c['cfg']['uids']), 'subs': [(k, list(h)) for k, h in c['cfg']['subs']], 'unhashed': c['cfg'].get('unhashed', False)}
+    c['cfg'] = {'primary': c['cfg']['primary'], 'uids': list(c['cfg']['uids']), 'subs': [(k, list(h)) for k, h in c['cfg']['subs']], 'unhashed': c['cfg'].get('unhashed', False), 'wide': c['cfg'].get('wide', False)}
     evaluate(c, rec)
     return [(f['clause'], f['cause'], f['detail']) for f in rec.findings]
